@@ -12,7 +12,7 @@
      symbol is given here.
    * Wave is excluded (see EXCLUDED in the translator).  *)
 From Coq Require Import ZArith QArith List Bool Field Ring Lia.
-From EXV Require Import Base.Scalar Base.FieldLemmas Spectral.Symbols Spectral.Operators Gen.LinOps.
+From EXV Require Import Base.Scalar Base.FieldLemmas Spectral.Symbols Gen.LinOps.
 Import ListNotations.
 Local Open Scope fld_scope.
 
@@ -42,27 +42,6 @@ Section Tie.
   (* ---- helpers of _spectral.py ---- *)
   Lemma laplace_tie (d : list F) (order : nat) : gen_build_laplace_operator F d order = laplace_sym F order d.
   Proof. unfold gen_build_laplace_operator, laplace_sym. destruct order; reflexivity. Qed.
-
-  (* ---- make_incompressible and Poisson (per mode, between fft and ifft) ---- *)
-  Lemma lap2_is_lapm (d : list F) : laplace_sym F 2 d = lapm F d.
-  Proof. unfold laplace_sym, lapm. f_equal. apply map_ext. intros x. cbn [fpow]. ring. Qed.
-
-  Lemma map2_swap_map {A B C E : Type} (f : A -> C -> E) (g : B -> C) (u : list A) (d : list B) :
-    map2 f u (map g d) = map2 (fun dc uc => f uc (g dc)) d u.
-  Proof. revert d. induction u as [|x u IH]; intros [|y d]; cbn [map map2]; [reflexivity ..|]. rewrite IH. reflexivity. Qed.
-
-  Lemma make_incompressible_tie (d u : list F) : gen_make_incompressible F d u = make_incompressible_mode F d u.
-  Proof.
-    unfold gen_make_incompressible, make_incompressible_mode. cbv zeta. rewrite laplace_tie, lap2_is_lapm, map2_swap_map.
-    change (@fz F 1) with (@o1 F). reflexivity.
-  Qed.
-
-  Lemma poisson_tie (d : list F) (order : nat) (f : F) :
-    gen_poisson_step_fourier F (gen_poisson_inv_operator F d order) f = poisson_mode F (laplace_sym F order d) f.
-  Proof.
-    unfold gen_poisson_step_fourier, gen_poisson_inv_operator, poisson_mode. cbv zeta. rewrite laplace_tie.
-    change (@fz F 1) with (@o1 F). change (@fz F 0) with (@o0 F). ring.
-  Qed.
 
   Lemma gip_tie (d v : list F) (order : nat) : gen_build_gradient_inner_product_operator F d v order = gip_sym F v order d.
   Proof.
